@@ -908,7 +908,7 @@ Theorem c16_entity_copy_isolated : forall p : plan, plan_isolates p = true ->
   forall a new, In a (addrs (do_copy base e v)) -> update a new v = v.
 Proof. exact plan_isolated. Qed.
 (** the two wrong shapes that were met.  (1) the I/O maps are copied with `io_map.copy()`: the IODef objects (address 3) are
-    shared, renaming the copy's input renames the cached one.  (2) `copy.resources = self.resources` (repaired by 35646f6): the
+    shared, renaming the copy's input renames the cached one.  (2) `copy.resources = self.resources` (repaired by 3cb0d87): the
     list itself (address 1) is shared, an append through the copy is an append to the cached definition. *)
 Definition io_shape : ftype := TColl (TColl (TObj [TImm; TImm; TImm])).
 Definition io_value : val := VMut 1 [VMut 2 [VMut 3 [VImm 7; VImm 0; VImm 9]]].
